@@ -76,17 +76,20 @@ Definition agrees (c : case) : bool :=
 Definition holds (c : case) : bool :=
   let '(w, t0, _) := c in spec_b w t0 (observed c).
 
-(* class of the case: the first trigger of a known finding class, if it occurs at or before
-   the first failing step and the failing clause is one about the logout bookkeeping
-   (cl_pending, cl_ends); the cache clauses and cl_after / cl_request are never excused. *)
+(* class of the case, consulted when the spec fails.  Only failures of the logout-bookkeeping clauses
+   (cl_pending, cl_ends) are ever excused; the cache clauses, cl_accept, cl_after, cl_request never.
+   At the first failing step: the first trigger of an OPEN class (1, 4) seen at or before that step, if
+   any (theorem c19_until_first_trigger: before it nothing fails); otherwise the trigger of the failing
+   step itself — class 2 or 3, which the repaired code never violates: they are listed as fixed, so a
+   regression is reported as a VIOLATION with this input. *)
 Fixpoint cls_from (w : world) (g : ghost) (vb : view) (tr : trace) (seen : nat) : nat :=
   match tr with
   | [] => 0
   | (o, ou, va) :: r =>
-      let seen' := match seen with O => trigger w g vb o | _ => seen end in
+      let seen' := match seen with O => open_trigger w g vb o | _ => seen end in
       match failing_clause w g vb o ou va with
       | O => cls_from w (ghost_step w g vb o ou va) va r seen'
-      | k => if 6 <=? k then seen' else 0
+      | k => if 6 <=? k then match seen' with O => trigger w g vb o | _ => seen' end else 0
       end
   end.
 Definition cls (c : case) : nat :=
